@@ -35,6 +35,11 @@ type FuncFacts struct {
 	in      []map[string]*Atom                 // must-hold facts at block entry (nil = unreachable/top)
 	done    bool
 	ids     map[ssa.Value]int
+	loadReps    map[*ssa.UnOp]*ssa.UnOp
+	loadsByAddr map[string][]*ssa.UnOp
+	// LeafKey lets a rule name specific (unforwarded) values in linear forms, e.g. the load
+	// of the location a store updates ("@OLD"); consulted before any other normalisation.
+	LeafKey func(ssa.Value) (string, bool)
 	// ErrExit lets a rule reclassify specific returns as error exits (frozen, triaged
 	// `if err != nil { return nil }` instances).
 	ErrExit map[ssa.Instruction]bool
@@ -1089,6 +1094,134 @@ func ReachesWithout(fn *ssa.Function, from ssa.Instruction, target func(ssa.Inst
 	return nil, false
 }
 
+// threadedSuccs returns the successors of b that are feasible when b was entered from its
+// predecessor number pi.  When b ends in a nil test of an error φ defined in b itself (the
+// shape `r = err; break` … `if r != nil` left by inlining, or any hand-written merge of
+// error results), an edge that delivers a definitely non-nil (nil) error can only continue
+// on the non-nil (nil) branch: jump threading, so that reachability queries do not follow
+// the infeasible combination.  pi < 0 or no such test: all successors.
+func (ff *FuncFacts) threadedSuccs(b *ssa.BasicBlock, pi int) []*ssa.BasicBlock {
+	if pi < 0 || len(b.Succs) != 2 || len(b.Instrs) == 0 || ff.in == nil {
+		return b.Succs
+	}
+	iff, ok := b.Instrs[len(b.Instrs)-1].(*ssa.If)
+	if !ok {
+		return b.Succs
+	}
+	cond := iff.Cond
+	neg := false
+	for {
+		u, ok := cond.(*ssa.UnOp)
+		if !ok || u.Op != token.NOT {
+			break
+		}
+		cond, neg = u.X, !neg
+	}
+	bo, ok := cond.(*ssa.BinOp)
+	if !ok || (bo.Op != token.EQL && bo.Op != token.NEQ) {
+		return b.Succs
+	}
+	isNil := func(v ssa.Value) bool {
+		c, ok := v.(*ssa.Const)
+		return ok && c.Value == nil && !isBasic(c.Type())
+	}
+	var pv ssa.Value
+	switch {
+	case isNil(bo.Y):
+		pv = bo.X
+	case isNil(bo.X):
+		pv = bo.Y
+	default:
+		return b.Succs
+	}
+	ph, ok := ff.Fwd(pv).(*ssa.Phi)
+	if !ok || ph.Block() != b || !isErrorType(ph.Type()) || pi >= len(ph.Edges) {
+		return b.Succs
+	}
+	pred := b.Preds[pi]
+	if ff.in[pred.Index] == nil {
+		return b.Succs
+	}
+	kind := ff.classifyErrOnEdge(ph.Edges[pi], pred, b, map[ssa.Value]bool{})
+	// condTrueMeansNonNil: (φ != nil) is the true branch
+	trueIsNonNil := (bo.Op == token.NEQ) != neg
+	switch kind {
+	case ExitError: // φ is non-nil on this edge
+		if trueIsNonNil {
+			return b.Succs[:1]
+		}
+		return b.Succs[1:]
+	case ExitSuccess:
+		if trueIsNonNil {
+			return b.Succs[1:]
+		}
+		return b.Succs[:1]
+	}
+	return b.Succs
+}
+
+func predIndex(p, b *ssa.BasicBlock) int {
+	for i, x := range b.Preds {
+		if x == p {
+			return i
+		}
+	}
+	return -1
+}
+
+// ReachesWithoutT is ReachesWithout over the jump-threaded CFG (threadedSuccs).
+func (ff *FuncFacts) ReachesWithoutT(from ssa.Instruction, target func(ssa.Instruction) bool, stop func(ssa.Instruction) bool) (ssa.Instruction, bool) {
+	fn := ff.Fn
+	type item struct {
+		b  *ssa.BasicBlock
+		i  int
+		pi int // predecessor index the block was entered through (-1: unknown/any)
+	}
+	type key struct {
+		b  *ssa.BasicBlock
+		pi int
+	}
+	seen := map[key]bool{}
+	var q []item
+	if from == nil {
+		q = append(q, item{fn.Blocks[0], 0, -1})
+		seen[key{fn.Blocks[0], -1}] = true
+	} else {
+		q = append(q, item{from.Block(), idx(from) + 1, -1})
+	}
+	for len(q) > 0 {
+		it := q[0]
+		q = q[1:]
+		blocked := false
+		for i := it.i; i < len(it.b.Instrs); i++ {
+			in := it.b.Instrs[i]
+			if stop != nil && stop(in) {
+				blocked = true
+				break
+			}
+			if target(in) {
+				return in, true
+			}
+		}
+		if blocked {
+			continue
+		}
+		for _, s := range ff.threadedSuccs(it.b, it.pi) {
+			pi := predIndex(it.b, s)
+			k := key{s, pi}
+			// only blocks that can be threaded need the per-edge state
+			if len(ff.threadedSuccs(s, pi)) == len(s.Succs) {
+				k.pi = -1
+			}
+			if !seen[k] {
+				seen[k] = true
+				q = append(q, item{s, 0, pi})
+			}
+		}
+	}
+	return nil, false
+}
+
 // SuccessExitReachableWithout: is there a path from `from` to a success exit that
 // avoids every instruction matching stop?
 func (ff *FuncFacts) SuccessExitReachableWithout(from ssa.Instruction, stop func(ssa.Instruction) bool) (ssa.Instruction, bool) {
@@ -1096,7 +1229,7 @@ func (ff *FuncFacts) SuccessExitReachableWithout(from ssa.Instruction, stop func
 	for _, e := range ff.Exits() {
 		kinds[e.Instr] = e.Kind
 	}
-	return ReachesWithout(ff.Fn, from, func(in ssa.Instruction) bool {
+	return ff.ReachesWithoutT(from, func(in ssa.Instruction) bool {
 		k, ok := kinds[in]
 		return ok && (k == ExitSuccess || k == ExitBoth)
 	}, stop)
